@@ -312,7 +312,10 @@ fn exec_run(make_rt: impl FnOnce() -> Runtime, cfg: &RunCfg) -> J {
         let mut delay_left = delay;
         let mut stuck = 0u32;
         loop {
-            let k = budget.next();
+            // never hand the VM more than the remaining cap in one call (a budget of u32::MAX on a
+            // non-terminating program would never return)
+            let remaining = max_steps.saturating_sub(steps).saturating_add(1).min(u32::MAX as u64) as u32;
+            let k = budget.next().min(remaining.max(1));
             let st = rt.run_n_steps(k);
             calls += 1;
             steps += st.steps_consumed as u64;
